@@ -30,3 +30,14 @@ Definition C06_reject_statement : Prop :=
 Definition C06_transmitted_statement : Prop :=
   forall tracking t req retries evs,
     forallb (set_in_range t) (concat (fst (run_set tracking t req retries evs))) = true.
+
+(* (c) the bounds a later call is checked against are the ones the controller last reported:
+   whatever a call did, the bounds held afterwards are those of the last report (or the initial
+   ones), so a sequence of calls and reports never lets a stale range through *)
+Definition last_bounds (t : triple) (evs : list pev) : Z * Z :=
+  fold_left (fun b e => match e with Report r => (tlo r, thi r) | Tick => b end) evs (tlo t, thi t).
+
+Definition C06_bounds_statement : Prop :=
+  forall tracking t req retries evs,
+    let s := snd (run_set tracking t req retries evs) in
+    (tlo (vals s), thi (vals s)) = last_bounds t evs.
